@@ -689,6 +689,7 @@ type AbacoSource struct {
 	readPeriod   time.Duration
 	buffersChan  chan AbacoBuffersType
 	eTrigPackets []*packets.Packet // Unprocessed packets with external trigger info
+	eTrigLock    sync.Mutex        // guards eTrigPackets and the groups' frame-timing data: the reader goroutine fills them, block assembly uses them
 
 	unwrapOpts AbacoUnwrapOptions
 	AnySource
@@ -816,6 +817,8 @@ func (as *AbacoSource) Configure(config *AbacoSourceConfig) (err error) {
 
 // distributePackets sorts a slice of Abaco packets into the data queues according to the GroupIndex.
 func (as *AbacoSource) distributePackets(allpackets []*packets.Packet, now time.Time) {
+	as.eTrigLock.Lock()
+	defer as.eTrigLock.Unlock()
 	for _, p := range allpackets {
 		if p.IsExternalTrigger() {
 			as.eTrigPackets = append(as.eTrigPackets, p)
@@ -1156,6 +1159,8 @@ func (as *AbacoSource) getNextBlock() chan *dataBlock {
 }
 
 func (as *AbacoSource) extractExternalTriggers() []int64 {
+	as.eTrigLock.Lock()
+	defer as.eTrigLock.Unlock()
 	externalTriggers := make([]int64, 0)
 	for _, p := range as.eTrigPackets {
 		// These packets have form (u32, u32, u64) repeating, but we don't care about the first 2.
